@@ -84,6 +84,16 @@ KnownVector == /\ Indices(Rep(0, 16), <<55>>) = Rep(0, 11) \o <<3>>
                /\ OutsideScalarRange(Rep(0, 16)) /\ OutsideScalarRange(Rep(255, 32)) /\ OutsideScalarRange(OrderN)
                /\ ~OutsideScalarRange(Rep(255, 28)) /\ ~OutsideScalarRange(Rep(0, 31) \o <<1>>)
                /\ ~OutsideScalarRange([OrderN EXCEPT ![32] = 64])
+\* the list facts: every pinned list has facts; the order on words; a defective list is recognised
+ListFactsSane == /\ DOMAIN ListFacts = Languages
+                 /\ SeqLess(<<1>>, <<1, 2>>) /\ SeqLess(<<1, 2>>, <<1, 3>>) /\ SeqLess(<<>>, <<1>>)
+                 /\ ~SeqLess(<<1, 2>>, <<1, 2>>) /\ ~SeqLess(<<2>>, <<1, 5>>) /\ ~SeqLess(<<1, 2>>, <<1>>)
+                 /\ \A c \in {32, 10, 13, 65, 48, 160, 12288, 65279, 8203} : ~WordCp(c)
+                 /\ ListDefect("english", <<ListFacts.english.first>>) = "not-2048-words"
+                 /\ ListDefect("french", [i \in 1..2048 |-> IF i = 1 THEN <<65279>> \o ListFacts.french.first ELSE <<97, 98>>])
+                      = "word-with-a-character-that-is-no-letter"
+                 /\ ListDefect("french", [i \in 1..2048 |-> <<97, 98>>]) = "first-word"
+ASSUME ListFactsSane
 ASSUME IllFormedInvalid
 ASSUME KnownVector
 =============================================================================
